@@ -170,6 +170,11 @@ pub fn run(ctx: &Ctx) {
             }
         }
     }
+    if !ctx.quick() {
+        // thorough only: a root tree of height 20 (leaf positions beyond 16 bits) against the model's tree
+        let tall = vec![KeyCase { hash: HashId::Sha256_128, levels: vec![(2, 20)], seed: SeedSpec::Random(2020), seed_array_tail: None }, KeyCase { hash: HashId::Shake256_128, levels: vec![(1, 20), (4, 5)], seed: SeedSpec::Random(2021), seed_array_tail: None }];
+        ctx.enumerate("very_tall_root_h20", tall.len() as u64, false, |i| tall[i as usize].clone(), check_keys);
+    }
     // eight levels of height 10: the upper levels sit at counter bit offsets of 64 and more
     for counter in [0u64, 64, 320, (1u64 << 40) + 5, u64::MAX - 1] {
         ch.push(ChildCase { hash: HashId::Sha256_128, levels: vec![(2, 10); 8], seed: 88, counter });
